@@ -82,8 +82,31 @@ def both_arms_exit(b):
     return False
 
 
+def construct_then_more_in_if(b):
+    """an `if` whose arm contains a nested construct FOLLOWED by at least one more instruction before the arm
+    ends (where code belonging to the `if` and code belonging to the nested construct can be told apart)"""
+    pr = Prog(b)
+    for i, op in enumerate(b):
+        if op[0] == "if":
+            arm_end = pr.match_else.get(i, pr.match_end[i])
+            j = i + 1
+            while j < arm_end:
+                if b[j][0] in ("block", "loop", "if"):
+                    e = pr.match_end[j]
+                    if e + 1 < arm_end:
+                        return True
+                    j = e + 1
+                else:
+                    j += 1
+    return False
+
+
 def body_family(pid, tier, seed):
     fam = body_family0(pid, tier, seed)
+    if pid == "C21":
+        # targeted sub-family: the 22 budget-3 bodies with `if <construct> <more> end` (cross-site pairs)
+        seen = set(repr(b) for b in fam)
+        fam = fam + [b for b in F.bodies(3, 3) if construct_then_more_in_if(b) and repr(b) not in seen]
     if pid in ("C17", "C16"):
         # targeted sub-family: the 36 budget-4 bodies `if <..exit> else <..exit> end`
         seen = set(repr(b) for b in fam)
